@@ -29,7 +29,7 @@ def sh(cmd, **kw):
     return subprocess.run(cmd, shell=True, capture_output=True, text=True, **kw)
 
 
-def run_one(m, tests, tier, jobs):
+def run_one(m, tests, tier, jobs, tests_only=False):
     name = m["name"]
     wt = tempfile.mkdtemp(prefix="pvmut_%s_" % name)
     os.rmdir(wt)
@@ -57,6 +57,8 @@ def run_one(m, tests, tier, jobs):
             out["repo_tests"] = r.stdout.strip().splitlines()[-1] if r.stdout.strip() else "?"
             out["repo_tests_pass"] = " failed" not in out["repo_tests"] and " error" not in out["repo_tests"]
             out["repo_tests_s"] = round(time.time() - t0)
+        if tests_only:
+            return out
         res = {}
         for pid in m["props"]:
             t0 = time.time()
@@ -80,13 +82,15 @@ def main(argv):
             print("%-34s %-12s %s" % (m["name"], ",".join(m["props"]), m.get("note", "")))
         return 0
     args = argv[1:]
-    jobs, tests, tier, sel = 2, False, "quick", []
+    jobs, tests, tier, sel, tests_only = 2, False, "quick", [], False
     while args:
         a = args.pop(0)
         if a == "-j":
             jobs = int(args.pop(0))
         elif a == "--tests":
             tests = True
+        elif a == "--tests-only":
+            tests = tests_only = True
         elif a == "--tier":
             tier = args.pop(0)
         else:
@@ -96,10 +100,14 @@ def main(argv):
     respath = os.path.join(HERE, "mutants", "results.json")
     results = json.load(open(respath)) if os.path.exists(respath) else {}
     with concurrent.futures.ThreadPoolExecutor(max_workers=jobs) as ex:
-        futs = {ex.submit(run_one, m, tests, tier, per): m for m in ms}
+        futs = {ex.submit(run_one, m, tests, tier, per, tests_only): m for m in ms}
         for f in concurrent.futures.as_completed(futs):
             o = f.result()
             prev = results.get(o["name"], {})
+            if tests_only and "error" not in o:
+                for k in ("checks", "caught_by", "caught"):
+                    if k in prev:
+                        o[k] = prev[k]
             if "repo_tests" not in o and "repo_tests" in prev:
                 for k in ("repo_tests", "repo_tests_pass", "repo_tests_s"):
                     if k in prev:
